@@ -13,8 +13,15 @@ SP = algopy.special
 
 
 class Prog:
-    def __init__(self, name, f, ins, tags=(), maxD=None):
-        self.name, self.f, self.ins, self.tags, self.maxD = name, f, ins, set(tags), maxD
+    def __init__(self, name, f, ins, tags=(), maxD=None, guard=None):
+        self.name, self.f, self.ins, self.tags, self.maxD, self.guard = name, f, ins, set(tags), maxD, guard
+
+    def in_domain(self, bases):
+        """regularity condition of the operation at the given base points (list of ndarrays)"""
+        try:
+            return self.guard is None or bool(self.guard(*[np.asarray(b, dtype=float) for b in bases]))
+        except Exception:
+            return False
 
     def make_inputs(self, rng, D, P, scale=0.4, same_base=False):
         """list of (D,P)+shape coefficient arrays, base points inside each input's domain"""
@@ -93,13 +100,22 @@ def catalogue():
     P = []
     V, M, S = (3,), (3, 3), ()
 
-    def add(name, f, ins, tags=(), maxD=None):
-        P.append(Prog(name, f, ins, tags, maxD))
+    def add(name, f, ins, tags=(), maxD=None, guard=None):
+        P.append(Prog(name, f, ins, tags, maxD, guard))
+
+    def qr_guard(X):          # full column rank of the leading square block, away from rank deficiency
+        k = min(X.shape)
+        r = np.linalg.qr(X[:, :k] if X.shape[0] >= X.shape[1] else X[:, :X.shape[0]])[1]
+        return np.min(np.abs(np.diag(r))) >= 0.2
+
+    def sv_guard(X):
+        sv = np.linalg.svd(X, compute_uv=False)
+        return sv[-1] >= 0.2 and (len(sv) < 2 or np.min(np.abs(np.diff(sv))) >= 0.1)
     # --- elementwise unary
     for nm, dom in [('exp', 'R'), ('expm1', 'R'), ('log', 'pos'), ('log1p', 'gtm1'), ('sqrt', 'pos'), ('sin', 'R'), ('cos', 'R'),
                     ('tan', 'tan'), ('square', 'R'), ('negative', 'R'), ('reciprocal', 'nz'), ('absolute', 'nz'), ('sign', 'nz'),
                     ('arcsin', 'unit'), ('arccos', 'unit'), ('arctan', 'R'), ('sinh', 'R'), ('cosh', 'R'), ('tanh', 'R')]:
-        add(nm, (lambda g: lambda x: g(x))(getattr(A, nm)), [(V, dom)], ['unary'])
+        add(nm, (lambda g: lambda x: g(x))(getattr(A, nm)), [(V, dom)], ['unary'] + (['refused'] if nm in ('arcsin', 'arccos', 'arctan', 'sinh', 'cosh', 'tanh') else []))
         if nm in ('exp', 'sin', 'log', 'sqrt', 'tan'):
             add(nm + ':matrix', (lambda g: lambda x: g(x))(getattr(A, nm)), [((2, 2), dom)], ['unary'])
     for nm, dom in [('erf', 'R'), ('erfi', 'R'), ('dawsn', 'R'), ('logit', 'logit'), ('expit', 'R'), ('gammaln', 'gamma'), ('psi', 'gamma')]:
@@ -182,11 +198,11 @@ def catalogue():
     add('triu', lambda X: A.triu(X), [(M, 'R')], ['linalg', 'nopb'])
     # --- factorizations: uniquely defined outputs
     for shp, tag in [((3, 3), 'square'), ((4, 2), 'tall'), ((2, 3), 'wide')]:
-        add('qr:Q:' + tag, lambda X: A.qr(X)[0], [(shp, 'R')], ['fact'])
-        add('qr:R:' + tag, lambda X: A.qr(X)[1], [(shp, 'R')], ['fact'])
-        add('qr:QR:' + tag, lambda X: _both(A.qr(X)), [(shp, 'R')], ['fact'])
-    add('qr_full:Q', lambda X: A.qr_full(X)[0][:, :2], [((4, 2), 'R')], ['fact'])       # only the first N columns are unique
-    add('qr_full:R', lambda X: A.qr_full(X)[1], [((4, 2), 'R')], ['fact'])
+        add('qr:Q:' + tag, lambda X: A.qr(X)[0], [(shp, 'R')], ['fact'], guard=qr_guard)
+        add('qr:R:' + tag, lambda X: A.qr(X)[1], [(shp, 'R')], ['fact'], guard=qr_guard)
+        add('qr:QR:' + tag, lambda X: _both(A.qr(X)), [(shp, 'R')], ['fact'], guard=qr_guard)
+    add('qr_full:Q', lambda X: A.qr_full(X)[0][:, :2], [((4, 2), 'R')], ['fact'], guard=qr_guard)       # only the first N columns are unique
+    add('qr_full:R', lambda X: A.qr_full(X)[1], [((4, 2), 'R')], ['fact'], guard=qr_guard)
     add('cholesky', lambda X: A.cholesky(_spd(X)), [(M, 'R')], ['fact'])
     add('lu:L', lambda X: A.lu(_wc(X))[1], [(M, 'R')], ['fact'])
     add('lu:U', lambda X: A.lu(_wc(X))[2], [(M, 'R')], ['fact'])
@@ -194,7 +210,7 @@ def catalogue():
     add('eigh:values', lambda X: A.eigh(_sym(X))[0], [(M, 'R')], ['fact'])
     add('eigh:vectors', lambda X: A.eigh(_sym(X))[1], [(M, 'R')], ['fact', 'eighQ'])
     add('svd:values', lambda X: A.svd(_wc(X))[1], [(M, 'R')], ['fact'])
-    add('svd:values:wide', lambda X: A.svd(X)[1], [((2, 3), 'R')], ['fact'])
+    add('svd:values:wide', lambda X: A.svd(X)[1], [((2, 3), 'R')], ['fact'], guard=sv_guard)
     add('eig:values', lambda X: A.real(A.eig(_sym(X) + 0.1 * X)[0]), [(M, 'R')], ['fact', 'eig'], maxD=2)
     # --- fft with real inputs and outputs
     add('fft:real', lambda x: A.real(A.fft.fft(x)), [((4,), 'R')], ['fft'])
@@ -204,8 +220,8 @@ def catalogue():
     add('ifft:axis0', lambda X: A.imag(A.fft.ifft(X, axis=0)) + A.real(A.fft.ifft(X, axis=0)), [((3, 2), 'R')], ['fft', 'kwargs'])
     add('conjugate', lambda x: A.real(A.conjugate(A.fft.fft(x)) * A.fft.fft(x)), [((4,), 'R')], ['fft'])
     # --- zeros / ones with traced dtype
-    add('ones_like', lambda x: A.ones_like(x) * x + A.zeros_like(x), [(V, 'R')], ['construct'])
-    add('ones_shape', lambda x: A.ones((2, 3), dtype=x) * x, [(V, 'R')], ['construct'])
+    add('ones_like', lambda x: A.ones_like(x) * x + A.zeros_like(x), [(V, 'R')], ['construct', 'refused'])
+    add('ones_shape', lambda x: A.ones((2, 3), dtype=x) * x, [(V, 'R')], ['construct', 'refused'])
     return P
 
 
